@@ -497,8 +497,33 @@ def generate(repo=None):
         ("futex", "rusl/src/futex.rs"),
     ]
     tables, envs, srcs, lock_locs = {}, {}, {}, {}
+    # a lock may keep part of its code in sibling files of tiny-std/src/sync/ (e.g. the raw futex lock split out of
+    # mutex.rs): such a file belongs to every lock module that names it (`mod x;` is declared in sync.rs, the user
+    # says `super::x::` / `crate::sync::x::` / `use super::x`), and is read together with it
+    sync_dir = os.path.join(repo, "tiny-std/src/sync")
+    siblings = {}
+    if os.path.isdir(sync_dir):
+        for dp, _, fns_ in os.walk(sync_dir):
+            for fn_ in sorted(fns_):
+                if fn_.endswith(".rs") and fn_ not in ("mutex.rs", "rwlock.rs"):
+                    name = "mod" if fn_ == "mod.rs" else fn_[:-3]
+                    if fn_ == "mod.rs":
+                        name = os.path.basename(dp)
+                    siblings[name] = open(os.path.join(dp, fn_)).read()
     for mod, rel in files:
         src = open(os.path.join(repo, rel)).read()
+        if mod in ("mutex", "rwlock"):
+            seen, todo = set(), [src]
+            while todo:
+                text = todo.pop()
+                for name, body in siblings.items():
+                    if name not in seen and re.search(r"\b%s\s*::|\buse\s+(?:super|crate::sync)::%s\b|\bmod\s+%s\s*;" % (name, name, name), text):
+                        seen.add(name)
+                        # the tests module of a file ends what `functions` reads: cut it before joining files
+                        cut = src.find("#[cfg(test)]")
+                        bcut = body.find("#[cfg(test)]")
+                        src = (src[:cut] if cut >= 0 else src) + "\n" + (body[:bcut] if bcut >= 0 else body)
+                        todo.append(body)
         srcs[mod] = src
         env = resolve_consts(consts_of(src))
         envs[mod] = env
